@@ -12,7 +12,8 @@ RULE = (
     "tiers) against explicit sets. X = Hypothesis-generated ranges, one-character literals, ASCII "
     "case-insensitive one-character literals and mixed choices of them (what squash_choice merges; "
     "boundaries at case edges, adjacent / overlapping / nested / single-point / astral ranges, members ] - ^ \\ [; "
-    "plus a deterministic matrix of 19 regex-special characters x 9 roles inside a merged class, and every "
+    "plus a deterministic matrix of 19 regex-special characters x 9 roles inside a merged class, cased non-ASCII "
+    "one-character ^\"c\" literals alone and inside merged classes (no folding outside ASCII), and every "
     "explicit built-in merged with literals, a range, ASCII_DIGIT and NEWLINE): "
     "boundary-focused sweeps (U+0000-U+02FF, +-2 around every boundary, case images, specials, stride) in "
     "quick, full sweeps in thorough, against the union of the explicit sets. Unicode property built-ins "
